@@ -132,6 +132,17 @@ register('C13', 'p_update', 'c13',
          'Theorems in Properties/C13.v (reading is transparent; the policy of every profile); the runs decide the whole-tree clauses.',
          ORACLE + ['codecs: the bytes produced by gzip/bz2/lzma decompress to the text written (exercised on the real files)'])
 
+register('C11', 'p_c11', 'c11',
+         'random consistent trees (one Manifest per directory) in two replicas; `gemato update -t` with a controlled clock, then 1-3 rounds of 1-4 file operations '
+         '(same-size / other-size modification, add, delete, touch) with explicit mtimes {TS-50, TS-1, TS, TS+1, TS+2, TS+50} applied to both; replica A runs '
+         '`gemato update -i`, replica B `gemato update`, both in-process under TZ in {UTC, Etc/GMT-14, Etc/GMT+12, Asia/Kolkata, America/St_Johns}; in a quarter of the '
+         'rounds a file that has already been hashed is modified during the scan (mtime = scan start + 1 s) while the clock keeps advancing; every round is also run '
+         'through the model from the real pre-state; non-trivial = round',
+         'Theorems in Properties/C11.v (per-entry: incremental = full unless not newer, non-empty and same size; skipping an up-to-date entry = full); the whole update '
+         'is tied to /repo by running the CLI and the model on the same directory states; when every modified file is later than the previous TIMESTAMP the two replicas '
+         'must agree byte for byte, and the TIMESTAMP written must be the start of the scan.',
+         ORACLE + ['kernel: st_mtime is what os.utime set (whole seconds are used)', 'the controlled clock replaces datetime.datetime.utcnow in gemato.cli only'])
+
 # ---- MANIFEST metadata per claimed property ------------------------------------------------
 NOT_APPLICABLE = {}
 META = {
@@ -233,6 +244,13 @@ META = {
               'translation of gemato/profile.py made on this run). PARTIAL: identical verification/lookup results across whole layouts and the post-save clauses (one file per logical Manifest, '
               'parents reference the new name, tree verifies) are decided on generated trees with watermarks at size-1/size/size+1.',
    level_note='About Model/Loader.v read_manifest and Gen/Profile.v; codecs are oracles (decompress(compress(x)) = x is a premise of the theorem and exercised on real files).'),
+ 'C11': dict(engine='coq+tree+cli', design_ref='DESIGN.md section 5 C11',
+   technique='Coq theorems about the per-entry skip rule + CLI-level differential histories (incremental vs full replica, five time zones, controlled clock and mtimes, mid-scan modification) + model runs from the real pre-states',
+   level_text='Proved in Coq for all inputs: with a last-update time, refreshing an entry is exactly the full refresh unless the object is a regular file that is not newer, not empty and of the recorded '
+              'size (C11_incremental_cases); so a file modified after the TIMESTAMP or with a changed size is re-hashed (C11_newer_is_full, C11_size_changed_is_full) and skipping an entry the full '
+              'update would leave unchanged yields the full result (C11_unchanged_is_full); the TIMESTAMP is converted as UTC from its six fields only. PARTIAL: the lift to whole histories, the '
+              'time-zone independence of the real CLI and "TIMESTAMP = start of the scan" are decided by replayed histories on two replicas and by model runs from the same pre-states.',
+   level_note='About Model/Verify.v update_entry_for_path and Py/PyTime.v utc_epoch; the CLI glue (cli.py:390-417) is modelled by the update_inc / touch_timestamp operations of Exec/Tree.v.'),
  'C09': dict(engine='coq+text', design_ref='DESIGN.md section 5 C09',
    technique='Coq theorems (totality of the parser result type by induction over lines; per-class rejection lemmas) + differential runs',
    level_text='Proved in Coq for every text: load returns entries, ManifestSyntaxError or ManifestUnsignedData and nothing else; accepted entries '
